@@ -99,6 +99,14 @@ func (e *Engine) verifyFunc(name string) (*FuncResult, error) {
 	if fr.contract != nil {
 		for _, ac := range fr.contract.Ats {
 			if !r.usedAts[name+"|"+ac.Anchor+"|"+ac.Text] {
+				if ac.Kind == "assert" {
+					// the statement this clause constrains no longer exists: the obligation that was
+					// discharged on the tree the contract was written for cannot be discharged any more
+					r.obls = append(r.obls, &Obligation{Name: name + "/assert/" + ac.Anchor + ":" + ac.Label(clip(ac.Text, 30)), Kind: "assert", Func: name, Tags: ac.Tags,
+						Text: ac.Text + " -- anchor " + ac.Anchor + " not found in " + name + " (the constrained statement was removed, replaced or renumbered)", Pc: "true", Goal: "false",
+						Result: &SolverResult{Status: "anchor-missing", Solver: "anchor-scan", Output: "anchor " + ac.Anchor + " does not occur in the function"}})
+					continue
+				}
 				r.evalErrors = append(r.evalErrors, fmt.Sprintf("%s: anchor %q not found in the function", name, ac.Anchor))
 			}
 		}
@@ -152,6 +160,9 @@ func solveAll(workDir string, frs []*FuncResult, timeoutS int, jobs int) {
 			defer wg.Done()
 			for j := range ch {
 				o := j.o
+				if o.Result != nil {
+					continue // decided while generating (anchor scan)
+				}
 				if o.Goal == "true" {
 					o.Result = &SolverResult{Status: "unsat", Solver: "trivial"}
 					continue
